@@ -136,22 +136,26 @@ def ref_host_field_matches(field, name, addr, ip_text, cidr_needs_slash=True):
 
 
 def ref_known_hosts_lookup(lines, host, addr, port, cidr_needs_slash=True):
-    """SSH_KNOWN_HOSTS FILE FORMAT.  lines: [(marker|None, hostfield, keyid)] with parsable keys, file order.
-    -> (host_keys, ca_keys, revoked_keys): keyids in file order.  For a non-default port the '[host]:port' names
-    are looked up first; when they trust nothing (no host key, no CA) the plain names are used (revocations
-    found for the port form stay in force)."""
+    """SSH_KNOWN_HOSTS FILE FORMAT.  lines: [(marker|None, hostfield, keyid)] with parsable key fields, file order;
+    keyid ('cert', n) stands for a line whose key field is a certificate, anything else for a plain public key.
+    -> (host_keys, ca_keys, revoked_keys, certs, revoked_certs): keyids in file order.  For a non-default port the
+    '[host]:port' names are looked up first; when they trust nothing (no host key, CA or certificate) the plain
+    names are used (revocations found for the port form stay in force)."""
     def one(h, a):
-        res = ([], [], [])
+        res = ([], [], [], [], [])
         for marker, field, keyid in lines:
             if ref_host_field_matches(field, h, a, addr or host, cidr_needs_slash):
-                res[{None: 0, 'cert-authority': 1, 'revoked': 2}[marker]].append(keyid)
+                if isinstance(keyid, tuple) and keyid[0] == 'cert':
+                    res[4 if marker == 'revoked' else 3].append(keyid)
+                else:
+                    res[{None: 0, 'cert-authority': 1, 'revoked': 2}[marker]].append(keyid)
         return res
     if port:
         r = one(f'[{host}]:{port}' if host else '', f'[{addr}]:{port}' if addr else '')
-        if r[0] or r[1]:
+        if r[0] or r[1] or r[3]:
             return r
         p = one(host, addr)
-        return p[0], p[1], r[2] + p[2]       # a key revoked for [host]:port stays revoked in the fallback
+        return p[0], p[1], r[2] + p[2], p[3], r[4] + p[4]   # revoked for [host]:port stays revoked in the fallback
     return one(host, addr)
 
 
@@ -540,8 +544,8 @@ def _check_pattern_lists(tier):
     """pattern lists end to end (text level): negation wins, '!' stripped from exactly the negated items"""
     import itertools
     from asyncssh.pattern import WildcardPatternList, HostPatternList
-    items = ['a', '*', 'b?', '!a', '!*', 'ab', '[a]', '!b*', '!!a', '']
-    values = ['a', 'b', 'ab', 'ba', '[a]', '!a', '']
+    items = ['a', '*', 'b?', '!a', '!*', 'ab', '[a]', '!b*', '!!a', '', '!A', 'Ab']
+    values = ['a', 'b', 'ab', 'ba', '[a]', '!a', '', 'A', 'Ab', 'AB']
     bad, n = [], 0
     for k in (1, 2, 3):
         for combo in itertools.product(items, repeat=k):
@@ -552,7 +556,7 @@ def _check_pattern_lists(tier):
                 want = ref_pattern_list(text, lambda p: ref_wild_match(p, v))
                 if bool(m.matches(v)) != want:
                     bad.append({'patterns': text, 'value': v, 'asyncssh': bool(m.matches(v)), 'spec': want})
-    hitems = ['10.0.0.0/8', '!10.1.0.0/16', '*.example.com', 'host', '10.*', '!*.bad.example.com', 'fe80::/10',
+    hitems = ['10.1.2.3/8', '10.0.0.0/8', '!10.1.0.0/16', '*.example.com', 'host', '10.*', '!*.bad.example.com', 'fe80::/10',
               '!host', '[host]:22']
     clients = [('host', '10.1.2.3'), ('a.example.com', '10.2.0.1'), ('x.bad.example.com', '192.168.0.1'),
                ('', '10.0.0.1'), ('host', ''), ('other', 'fe80::1'), ('[host]:22', '')]
@@ -590,7 +594,7 @@ def _check_tokenizer(tier):
         def _add_option(self, option):
             self.raw.append(option)
     bad, n = [], 0
-    for line in _strings(['a', ',', '"', '\\', ' ', '='], 6 if tier == 'thorough' else 5):
+    for line in _strings(['a', ',', '"', '\\', ' ', '=', '\t'], 6 if tier == 'thorough' else 5):
         n += 1
         try:
             want = ref_tokenize_options(line)
@@ -653,20 +657,45 @@ def _kh_cases(rnd, count, with_ip_literal_in_list):
 
 
 def _check_known_hosts(tier, seed, ip_literal_class=False):
-    """match(host, addr, port) on real files with real keys against the sshd(8) lookup rules"""
+    """match_known_hosts(file object, host, addr, port) on real files with real keys (plus hashed names, unparsable
+    key fields, certificate lines) against the sshd(8) lookup rules; malformed lines must be rejected"""
     import random
     import asyncssh
+    from asyncssh.known_hosts import match_known_hosts
     rnd = random.Random(seed * 7919 + (1 if ip_literal_class else 0))
     keys = _gen_keys(3)
+    ca = asyncssh.generate_private_key('ssh-ed25519')
+    cert_text = ca.generate_host_certificate(keys[0][0], 'host').export_certificate('openssh').decode().split()[:2]
     hashed = {'H1': _hashed('host'), 'H2': _hashed('[host]:2222'), 'H3': _hashed('10.0.0.1')}
     bad, n = [], 0
+    if not ip_literal_class:
+        good = 'host ' + ' '.join(keys[0][1]) + '\n'
+        for what, text in (('unknown marker', '@bogus host ' + ' '.join(keys[1][1]) + '\n'),
+                           ('marker without key', '@revoked host\n'), ('one field', 'hostonly\n'),
+                           ('hash type 2', '|2|MDEyMzQ1Njc4OWFiY2RlZmdoaWo=|9xkBbs6Xk7bONjEtv685aXOmEqs= '
+                            + ' '.join(keys[1][1]) + '\n'),
+                           ('hash without digest', '|1|MDEyMzQ1Njc4OWFiY2RlZmdoaWo= ' + ' '.join(keys[1][1]) + '\n'),
+                           ('hash not base64', '|1|A|A ' + ' '.join(keys[1][1]) + '\n')):
+            for text2 in (text, good + text, text + good):
+                n += 1
+                try:
+                    asyncssh.import_known_hosts(text2)
+                    bad.append({'file': text2, 'asyncssh': 'accepted', 'spec': 'ValueError (%s)' % what})
+                except ValueError:
+                    pass
+                except Exception as e:
+                    bad.append({'file': text2, 'asyncssh': type(e).__name__, 'spec': 'ValueError (%s)' % what})
     for lines in _kh_cases(rnd, (400 if tier == 'thorough' else 120) if not ip_literal_class else 20,
                            ip_literal_class):
         text, ref_lines = '', []
-        for marker, field, ki, broken in lines:
+        for li, (marker, field, ki, broken) in enumerate(lines):
             field = hashed.get(field, field)
             alg, blob = keys[ki][1]
-            if broken:
+            is_cert = (not ip_literal_class) and not broken and marker != 'cert-authority' and rnd.random() < 0.12
+            if is_cert:
+                alg, blob = cert_text
+                ref_lines.append((marker, field, ('cert', li)))
+            elif broken:
                 blob = blob[:-7] + '!'          # bad base64: the line must be skipped, nothing else affected
             else:
                 ref_lines.append((marker, field, ki))
@@ -679,19 +708,28 @@ def _check_known_hosts(tier, seed, ip_literal_class=False):
         for host, addr, port in (_KH_LOOKUPS if not ip_literal_class else [('', '10.0.0.1', 2222),
                                                                             ('host', '10.0.0.1', 2222)]):
             n += 1
-            r = kh.match(host, addr, port)
-            got = [[next(i for i, (k, _p) in enumerate(keys) if k.public_data == x.public_data) for x in lst]
-                   for lst in r[:3]]
             want = [list(x) for x in ref_known_hosts_lookup(ref_lines, host, addr, port,
                                                             cidr_needs_slash=ip_literal_class)]
-            # the index returns exact-name lines before pattern lines, and a line naming both the host and its
-            # address twice: trust decisions are membership tests, so the classes are compared as sets
-            if [sorted(set(x)) for x in got] != [sorted(set(x)) for x in want]:
-                bad.append({'file': text, 'lookup': [host, addr, port], 'asyncssh(host,ca,revoked)': got,
-                            'spec(host,ca,revoked)': want})
+            try:
+                r = match_known_hosts(kh, host, addr, port)
+                got = [[next(i for i, (k, _p) in enumerate(keys) if k.public_data == x.public_data) for x in lst]
+                       for lst in r[:3]] + [len(r[3]), len(r[4])]
+            except ValueError as e:
+                got = 'ValueError'      # OpenSSH certificates are not accepted as known_hosts key fields
+            if want[3] or want[4]:
+                ok = got == 'ValueError'
+                want = 'ValueError (a selected line carries an OpenSSH certificate)'
+            else:
+                # the index returns exact-name lines before pattern lines, and a line naming both the host and
+                # its address twice: trust decisions are membership tests, so the classes are compared as sets
+                ok = got != 'ValueError' and [sorted(set(x)) for x in got[:3]] == [sorted(set(x)) for x in want[:3]] \
+                    and got[3:] == [0, 0]
+            if not ok:
+                bad.append({'file': text, 'lookup': [host, addr, port], 'asyncssh(host,ca,revoked,certs,rcerts)': got,
+                            'spec(host,ca,revoked,certs,rcerts)': want})
                 if len(bad) >= 5:
                     return n, bad
-    return n, bad
+    return n, bad[:5]
 
 
 def _check_oracle_vs_ssh_keygen(tier, seed):
@@ -838,8 +876,8 @@ def _check_option_handlers(tier, seed):
             got = type(e).__name__
         if got != want:
             bad.append({'options': opts, 'asyncssh': repr(got), 'spec': repr(want)})
-    plists = ['a*', 'a*,!ab', '*,!root', 'root', 'b?']
-    psets = [['ab'], ['ac', 'root'], ['root'], [], ['bx', 'ab']]
+    plists = ['a*', 'a*,!ab', '*,!root', 'root', 'b?', '*,!Root']
+    psets = [['ab'], ['ac', 'root'], ['root'], [], ['bx', 'ab'], ['Root'], ['ROOT']]
     for k in (1, 2):
         for combo in itertools.product(plists, repeat=k):
             line = 'cert-authority,' + ','.join('principals="%s"' % p for p in combo) + ' ' + kt + '\n'
